@@ -330,6 +330,15 @@ func (w *World) verifyUnit(fn *ssa.Function, defaultSafety []string) *UnitResult
 		env.old = fr.entry
 		fr.bindAllocs(env)
 		resultEnv(env, fn.Signature, rets)
+		for _, gd := range con.GhostDefs {
+			// the object is new (the condition demands it): its ghost mark is defined here, before anyone can observe it
+			obj, _ := e.eval(env, gd.Obj)
+			key := e.scalar(obj)
+			cond := e.evalBool(env, gd.Cond)
+			val, _ := e.eval(env, gd.Value)
+			arr := e.ghost(rh, gd.Name)
+			e.setGhost(rh, gd.Name, arr, key, fmt.Sprintf("(ite %s %s (select %s %s))", cond, e.scalar(val), arr, key))
+		}
 		for _, c := range con.Ensures {
 			ts, ls := e.conjuncts(env, c.Expr, "")
 			for i := range ts {
